@@ -42,17 +42,34 @@ Proof. exact loop_is_functional. Qed.
 Print Assumptions C16_dq_loop_is_functional.
 
 (* ---- scalars assembled by concatenation ------------------------------------------ *)
-(* a value put between two single quotes is read back unchanged exactly when it has no
-   single quote (and no unprintable character / line break) *)
+(* uri, command and the two encoding sites double the single quote (commit 059139b3): the value is read back
+   unchanged exactly when it is one line of printable characters - quotes, doubled quotes, leading and
+   trailing quotes included *)
+Theorem C16_sq_escaped_valid_iff : forall s, yaml_sq_decode (emit_sq_escaped s) = Some s <-> one_line s = true.
+Proof. exact sq_escaped_valid_iff. Qed.
+Print Assumptions C16_sq_escaped_valid_iff.
+
+(* what is left of that site: an unprintable character (a charset holding DEL, written with --report-preserve-bytes) *)
+Theorem C16_sq_escaped_valid_refuted : exists s, is_unicode s = true /\ yaml_sq_decode (emit_sq_escaped s) = None.
+Proof. exists [97; 127; 98]. exact sq_escaped_refuted. Qed.
+Print Assumptions C16_sq_escaped_valid_refuted.
+
+(* the sites that still write the value as it is (method, check name, id, status, ...): read back unchanged
+   exactly when the value has no single quote (and no unprintable character / line break) *)
 Theorem C16_sq_valid_iff_no_quote : forall s, yaml_sq_decode (emit_sq s) = Some s <-> sq_free s = true.
 Proof. exact sq_valid_iff. Qed.
 Print Assumptions C16_sq_valid_iff_no_quote.
 
-(* ... and URLs do contain single quotes: the cassette is not YAML *)
-Theorem C16_sq_valid_refuted : exists s, is_unicode s = true /\ forallb line_safe s = true /\
-  yaml_sq_decode (emit_sq s) = None.
-Proof. exists url_with_quote. exact sq_refuted. Qed.
-Print Assumptions C16_sq_valid_refuted.
+(* regression sentinel: the raw rule on a URL with quotes is not a scalar, a doubled quote reads back as one;
+   the escaping rule reads both back verbatim *)
+Theorem C16_sq_raw_rule_refuted :
+  one_line url_with_quote = true
+  /\ yaml_sq_decode (emit_sq url_with_quote) = None
+  /\ yaml_sq_decode (emit_sq [97; 39; 39; 98]) = Some [97; 39; 98]
+  /\ yaml_sq_decode (emit_sq_escaped url_with_quote) = Some url_with_quote
+  /\ yaml_sq_decode (emit_sq_escaped [39; 97; 39; 39; 98; 39]) = Some [39; 97; 39; 39; 98; 39].
+Proof. exact sq_raw_rule_refuted. Qed.
+Print Assumptions C16_sq_raw_rule_refuted.
 
 (* header names between raw double quotes *)
 Theorem C16_dq_raw_valid_partial : forall s, dq_raw_free s = true -> yaml_dq_decode (emit_dq_raw s) = Some s.
